@@ -154,6 +154,14 @@ func (s *Sim) expectPanic(name, kind string, fn func()) {
 	if !p {
 		s.violate("C10", "pre.panics", name+"/"+kind, false, "%s with precondition violation %q did not panic", name, kind)
 	}
+	// pre.unchanged (cheap part; the full model comparison follows every op): lock state and entity count
+	if got := s.W.IsLocked(); got != s.locked() {
+		s.violate("C10", "pre.unchanged", name+"/"+kind+"/lock", true, "after recovering from %s (%s) IsLocked() = %v with %d queries open", name, kind, got, s.lockDepth)
+		return
+	}
+	if used := s.W.Stats().Entities.Used; used != len(s.M.Live) {
+		s.violate("C10", "pre.unchanged", name+"/"+kind+"/entities", true, "after recovering from %s (%s) the world reports %d entities, expected %d", name, kind, used, len(s.M.Live))
+	}
 }
 
 func (s *Sim) opMisuse(op *Op) {
@@ -357,6 +365,63 @@ func (s *Sim) opMisuse(op *Op) {
 			s.expectPanic("Unsafe.AddRel", "dead_target", func() {
 				s.W.Unsafe().AddRel(e.H, []ecs.ID{s.ids[r]}, ecs.RelID(s.ids[r], d.H))
 			})
+		}
+	case "query_dead_target", "query_foreign_relation":
+		// creating a typed query with an invalid relation argument must panic and must not
+		// leave the world locked (the lock-state oracle that follows every op checks that)
+		if len(s.filters) == 0 || s.lockDepth >= 64 {
+			s.skip(op)
+			return
+		}
+		fi := s.filters[abs(op.F)%len(s.filters)]
+		f := fi.A
+		if op.W == 1 {
+			f = fi.B
+		}
+		if !f.CanRegister() {
+			s.skip(op)
+			return
+		}
+		req := fi.Spec.Required()
+		var rels []ecs.Relation
+		if op.M == "query_dead_target" {
+			d := s.M.PickDead(op.E)
+			rt := -1
+			for _, t := range req {
+				if U[t].IsRel {
+					rt = t
+				}
+			}
+			if d == nil || rt < 0 {
+				s.skip(op)
+				return
+			}
+			if op.N%2 == 0 {
+				rels = []ecs.Relation{U[rt].Rel(d.H)}
+			} else {
+				for i, t := range req {
+					if t == rt {
+						rels = []ecs.Relation{ecs.RelIdx(i, d.H)}
+					}
+				}
+			}
+		} else {
+			rt := -1
+			for _, t := range RelTypes {
+				if !contains(req, t) {
+					rt = t
+				}
+			}
+			if rt < 0 {
+				s.skip(op)
+				return
+			}
+			rels = []ecs.Relation{U[rt].Rel(ecs.Entity{})}
+		}
+		var q Querier
+		s.expectPanic(fmt.Sprintf("Filter%d.Query", len(fi.Spec.Ts)), op.M, func() { q = f.Query(rels) })
+		if q != nil {
+			q.Close()
 		}
 	default:
 		s.skip(op)
